@@ -2,6 +2,7 @@ package main
 
 import (
 	"fmt"
+	"os"
 	"regexp"
 	"sort"
 	"strings"
@@ -18,7 +19,7 @@ func init() {
 			"R3 dispatch agreement — the first-token set of parseDDL / parseDMLInternal / the query path is included in the guard under which parseStatementInternal routes to it, and the specific entry points reach the same internal productions as ParseStatement. " +
 			"R4 the list entry points hand the generic parseStatements the same production their single-statement sibling calls. " +
 			"Decides: contradictions between a guard and what it guards. Does not decide: acceptance of every sentence of the reference grammar.",
-		Rules: []ruleFn{ruleC08R1, ruleC08R2, ruleC08R3, ruleC08R4},
+		Rules: []ruleFn{ruleC08R1, ruleC08R2, ruleC08R3, ruleC08R4, ruleC08R5},
 	})
 }
 
@@ -435,5 +436,145 @@ func ruleC08R4(w *World, r *Report) {
 	}
 	if n < 3 {
 		r.errorf("expected three list/single entry point pairs, found %d", n)
+	}
+}
+
+// ruleC08R5: a token kind a production can start with is not rejected by the dispatch in front of it.
+func ruleC08R5(w *World, r *Report) {
+	const rule = "C08/R5"
+	r.rule(rule, "no part of the grammar is cut off by a dispatching guard: when a token-consuming function can start with a token kind k (the kinds of the first token consumed on its normal returns, error recovery off) that none of its call sites admits, then at each such call site the caller, re-run from the block where k is still possible with the current token set to k, still reaches a normal return (k is taken by another alternative); if k can only raise there, the alternative of the callee that starts with k has become unreachable", 150)
+	tk := w.TKAI()
+	if miss := tk.anchorsOK(); len(miss) > 0 {
+		r.errorf("TKAI anchors missing: %v", miss)
+		return
+	}
+	for _, fn := range w.ModFns {
+		if fnPkgPath(fn) != modRoot || fn.Parent() != nil || !tk.touchesLexer(fn) || fn == tk.prim || w.isRecoveryHandler(fn) {
+			continue
+		}
+		if fn.TypeParams().Len() > 0 && len(fn.TypeArgs()) == 0 {
+			continue
+		}
+		callers := w.callersOf(fn)
+		if len(callers) == 0 {
+			continue
+		}
+		sum := tk.summaryMode(fn, kTop(), nil, false, true)
+		if sum == nil || !sum.mayConsume {
+			continue
+		}
+		atoms, finite := sum.first.Finite()
+		if !finite || len(atoms) == 0 {
+			continue
+		}
+		e := tk.entryFact(fn)
+		var dead []string
+		for _, a := range atoms {
+			if e.Excludes(a) {
+				dead = append(dead, a)
+			}
+		}
+		construct := "ways into " + funcName(fn)
+		if len(dead) == 0 {
+			r.ok(rule, construct, w.pos(fn.Pos()), fmt.Sprintf("starts with %s; callers admit %s", sum.first, e))
+			continue
+		}
+		sort.Strings(dead)
+		var cut []string
+		for _, k := range dead {
+			decided, accepted := 0, 0
+			where := ""
+			for _, c := range callers {
+				g := c.Parent()
+				if fnPkgPath(g) != modRoot {
+					continue
+				}
+				res := tk.Intra(g)
+				// the closest dominating block whose entry state still admits k
+				var p *ssa.BasicBlock
+				for b := c.Block(); b != nil; b = b.Idom() {
+					ins := res.in[b]
+					admits := false
+					for _, st := range ins {
+						if st != nil && !st.cur.Excludes(k) {
+							admits = true
+						}
+					}
+					if admits {
+						p = b
+						break
+					}
+				}
+				// not in the middle of an `a || b` (a block that branches on a phi of its own): start before it
+				for p != nil {
+					iff, ok := p.Instrs[len(p.Instrs)-1].(*ssa.If)
+					if !ok {
+						break
+					}
+					phi, ok := iff.Cond.(*ssa.Phi)
+					if !ok || phi.Block() != p {
+						break
+					}
+					p = p.Idom()
+				}
+				if p == nil {
+					continue // k is already excluded when g is entered: decided further up
+				}
+				decided++
+				ci := &ctxInfo{key: tkCtx{fn: g, entry: kTop().Key(), clean: true}, fn: g, entry: kTop(), consts: map[int]string{}}
+				var init [2]*TState
+				for pi, st := range res.in[p] {
+					if st != nil && !st.cur.Excludes(k) {
+						cl := st.clone()
+						cl.cur = kIn(k)
+						init[pi] = cl
+					}
+				}
+				fr := tk.flow(ci, p, init, nil, nil)
+				if os.Getenv("VERIF_C08_DEBUG") != "" {
+					fmt.Printf("C08R5 DEBUG %s k=%s in %s from block %d: rets=%d", funcName(fn), k, funcName(g), p.Index, len(fr.ret))
+					for _, rs := range fr.ret {
+						fmt.Printf(" ret@%s(cur=%s)", w.pos(rs.ret.Pos()), rs.st.cur)
+					}
+					fmt.Println()
+					var bs []int
+					for b, ins := range fr.in {
+						if ins[0] != nil || ins[1] != nil {
+							bs = append(bs, b.Index)
+						}
+					}
+					sort.Ints(bs)
+					fmt.Printf("   reached blocks %v\n", bs)
+					for _, b := range g.Blocks {
+						ins := fr.in[b]
+						for pi, st := range ins {
+							if st != nil {
+								fmt.Printf("      b%d part%d cur=%s preds=%v last=%s\n", b.Index, pi, st.cur, b.Preds, b.Instrs[len(b.Instrs)-1])
+							}
+						}
+					}
+					for _, b := range g.Blocks {
+						if b.Index == p.Index || (len(bs) > 1 && (b.Index == bs[0] || b.Index == bs[1])) {
+							for _, in := range b.Instrs {
+								fmt.Printf("      b%d: %s\n", b.Index, in.String())
+							}
+						}
+					}
+				}
+				if len(fr.ret) > 0 {
+					accepted++
+				} else if where == "" {
+					where = fmt.Sprintf("%s (%s)", funcName(g), w.pos(c.Pos()))
+				}
+			}
+			if decided > 0 && accepted == 0 {
+				cut = append(cut, fmt.Sprintf("%s is rejected at the dispatch in %s", k, where))
+			}
+		}
+		if len(cut) == 0 {
+			r.ok(rule, construct, w.pos(fn.Pos()), fmt.Sprintf("starts with %s; callers admit %s; %v are taken by other alternatives at the dispatch", sum.first, e, dead))
+		} else {
+			r.bad(rule, construct, w.pos(fn.Pos()), fmt.Sprintf("the function can start with %v but its call sites admit only %s, and %s: that alternative is unreachable", atoms, e, strings.Join(cut, "; ")))
+		}
 	}
 }
